@@ -66,6 +66,15 @@ away"), for the replies that carry a checked serial:
   connection clean-up and the work loop; everything else neither touches the table nor emits a channel message
   (Lemmas/Broker/ChanOut.lean).
 
+* `pending_serials_are_on_their_way`, `quiescent_no_pending` — nothing is left waiting for the broker: in every
+  reachable state, for a connection the broker still serves, every serial in one of the client's 16 maps belongs to
+  a request that is on its way to the broker or to a reply that is on its way to the client; when both queues of
+  the connection are empty, the maps are empty. Rests on `step_msg_answers` (Lemmas/Broker/Answers.lean): a turn
+  of the broker for such a request of a connection that is alive before and after the turn puts the reply into the
+  queue in that very turn — either the handler answers, or it closes the connection, and then the first round of the
+  work loop removes it. This is the protocol half of "every operation that only waits for the broker completes";
+  that the real client's futures are woken is the harness' business.
+
 Partial (see DESIGN.md): the same for calls and subscriptions (`NotSupported` is never sent to a client that asked
 only when it may) is the remaining part of the composed-system invariant; it is not a theorem here. The `assert!`s
 of the client about its own maps (a new cookie is not in the map yet) are not covered by these theorems either. It is checked by the runs of `harness/src/bin/sys.rs`
@@ -77,6 +86,7 @@ import Aldrin.Lemmas.Client.Serial
 import Aldrin.Lemmas.Client.Agreement
 import Aldrin.Lemmas.Client.ListenerAgreement
 import Aldrin.Lemmas.Client.ChannelAgreement
+import Aldrin.Lemmas.Client.Answered
 
 namespace Aldrin.Client
 open Aldrin.Broker
@@ -275,6 +285,33 @@ theorem channel_messages_never_refused (es : List SysEv) (s : Sys) (hr : sysRun 
     (c : ConnId) (l : Link) (hl : s.links c = some l) (m : Rsp) (rest : List Rsp) (hd : l.down = m :: rest)
     (hC : isC m = true) : onRecv l.mon m ≠ .unexpected :=
   channel_head_accepted (sysRun_cinv es {} s hr SysInv_init CSysInv_init).2 hl hd hC
+
+open Aldrin.System in
+/-- In every interleaving of the composed system, for a connection the broker still serves: a serial that the client
+has in the map of one of the 16 request kinds is that of a request on its way to the broker or of a reply on its way
+to the client. -/
+theorem pending_serials_are_on_their_way (es : List SysEv) (s : Sys) (hr : sysRun {} es = some s)
+    (c : ConnId) (l : Link) (hl : s.links c = some l) (ha : aliveB (stOf s) c = true)
+    (k : SKind) (n : Nat) (hk : k ≠ .queryIntrospection) (hn : n ∈ pendingOf l.mon k) :
+    (k, n) ∈ l.up.filterMap reqKeyS ∨ (k, n) ∈ l.down.filterMap strictKey := by
+  have := sysRun_ans es {} s hr AnsInv_init c l hl ha k n hk hn
+  simp only [cnt, keysUp, keysDown] at this
+  by_cases h1 : (k, n) ∈ l.up.filterMap reqKeyS
+  · exact Or.inl h1
+  · right
+    have h0 := List.count_eq_zero.mpr h1
+    exact List.count_pos_iff.mp (by omega)
+
+open Aldrin.System in
+/-- … so with nothing on its way in either direction, no operation waits for the broker. -/
+theorem quiescent_no_pending (es : List SysEv) (s : Sys) (hr : sysRun {} es = some s)
+    (c : ConnId) (l : Link) (hl : s.links c = some l) (ha : aliveB (stOf s) c = true) (hu : l.up = []) (hd : l.down = [])
+    (k : SKind) (hk : k ≠ .queryIntrospection) : pendingOf l.mon k = [] := by
+  cases hp : pendingOf l.mon k with
+  | nil => rfl
+  | cons n rest =>
+    have := pending_serials_are_on_their_way es s hr c l hl ha k n hk (by rw [hp]; simp)
+    simp [hu, hd] at this
 
 namespace SystemExample
 open Aldrin.System
